@@ -766,7 +766,7 @@ end pick
 /-- what the loops keep true about `used`, `roIndex`, `totalNodes`; `M` are the servers of all
 nodes created so far -/
 private def StOK (c : BigCfg) (st : BigSt) (M : List Nat) : Prop :=
-  st.used.length = c.ilLen ∧ st.roIndex < c.ilLen ∧
+  st.used.length = c.ilLen ∧ st.roIndex < c.ilLen ∧ (∀ r ∈ M, r < c.ilLen) ∧
   (c.useAll = true → st.used.count true = st.total ∧ M.Nodup ∧ ∀ r, r ∈ M ↔ st.used.getD r false = true)
 
 private theorem exists_unused : ∀ (l : List Bool), l.count true < l.length → ∃ u, u < l.length ∧ l.getD u false = false := by
@@ -794,7 +794,7 @@ private theorem count_set_true : ∀ (l : List Bool) (r : Nat), r < l.length →
 private theorem pick_ok (c : BigCfg) (st : BigSt) (M : List Nat) (ph : Nat) (hn : 0 < c.ilLen)
     (hst : StOK c st M) (htot : st.total < c.nodes) :
     ∃ r, pick c st ph = some r ∧ r < c.ilLen ∧ (c.useAll = true → st.used.getD r false = false) := by
-  obtain ⟨h1, h2, h3⟩ := hst
+  obtain ⟨h1, h2, _, h3⟩ := hst
   have hfirst : st.roIndex = (st.roIndex + c.ilLen) % c.ilLen := by
     rw [Nat.add_mod_right, Nat.mod_eq_of_lt h2]
   unfold pick
@@ -821,9 +821,14 @@ private theorem addChildren_ok (c : BigCfg) (pIdx m : Nat) (hn : 0 < c.ilLen) :
   | succ k ih =>
     intro st acc M h htot
     obtain ⟨r, hr, hr1, hr2⟩ := pick_ok c st M (c.hosts.getD m 0) hn h (by omega)
-    obtain ⟨h1, h2, h3⟩ := h
+    obtain ⟨h1, h2, hM, h3⟩ := h
     have hst1 : StOK c { used := st.used.set r true, roIndex := (r + 1) % c.ilLen, total := st.total + 1 } (M ++ [r]) := by
-      refine ⟨by simp [h1], Nat.mod_lt _ hn, ?_⟩
+      refine ⟨by simp [h1], Nat.mod_lt _ hn, ?_, ?_⟩
+      · intro x hx
+        simp only [List.mem_append, List.mem_singleton] at hx
+        rcases hx with hx | hx
+        · exact hM x hx
+        · subst hx; exact hr1
       intro hU
       obtain ⟨a1, a2, a3⟩ := h3 hU
       have hunused := hr2 hU
@@ -892,7 +897,11 @@ private theorem getD_replicate_false (n i : Nat) : (List.replicate n false).getD
 private theorem init_ok (c : BigCfg) (hil : 0 < c.ilLen) :
     StOK c { used := (List.replicate c.ilLen false).set 0 true, roIndex := 1 % c.ilLen, total := 1 }
       (membersOf [[(0, 0)]]) := by
-  refine ⟨by simp, Nat.mod_lt _ hil, ?_⟩
+  refine ⟨by simp, Nat.mod_lt _ hil, ?_, ?_⟩
+  · intro r hr
+    simp only [membersOf, List.flatten_cons, List.flatten_nil, List.append_nil, List.map_cons, List.map_nil,
+      List.mem_singleton] at hr
+    subst hr; exact hil
   intro _
   refine ⟨?_, by simp [membersOf], ?_⟩
   · rw [count_set_true _ _ (by simpa using hil) (getD_replicate_false _ _)]
@@ -965,7 +974,7 @@ theorem c12_big_use_all (c : BigCfg) (hN : 1 ≤ c.N) (hall : c.nodes = c.hosts.
     rw [ho] at h
     exact (Outcome.tree.inj h).symm
   subst hlv
-  obtain ⟨s1, _, s3⟩ := hso
+  obtain ⟨s1, _, _, s3⟩ := hso
   obtain ⟨a1, a2, a3⟩ := s3 hU
   have hsize := c12_big_size c hN hnodes lv h
   have hlen : (membersOf lv).length = c.nodes := by
@@ -1027,6 +1036,461 @@ theorem c12_big_distinct_partial (c : BigCfg) (hN : 1 ≤ c.N) (hall : c.nodes =
 /-- non-vacuity of the big-generator theorems: the hypotheses are satisfiable and the call returns -/
 example : ∃ lv, genBig { N := 3, nodes := 13, hosts := [0, 1, 2, 0, 1] } = .tree lv :=
   c12_big_terminates _ (by decide) (by decide) (by decide)
+/-! ### members, root lookup, node identifiers and levels of the n-ary tree -/
+
+theorem nodup_map_inj_on {α β : Type} (f : α → β) : ∀ (l : List α), l.Nodup →
+    (∀ a ∈ l, ∀ b ∈ l, f a = f b → a = b) → (l.map f).Nodup := by
+  intro l
+  induction l with
+  | nil => intro _ _; simp
+  | cons x xs ih =>
+    intro hnd hinj
+    rw [List.nodup_cons] at hnd
+    rw [List.map_cons, List.nodup_cons]
+    refine ⟨?_, ih hnd.2 (fun a ha b hb => hinj a (by simp [ha]) b (by simp [hb]))⟩
+    intro hm
+    obtain ⟨y, hy, hxy⟩ := List.mem_map.mp hm
+    have := hinj y (by simp [hy]) x (by simp) hxy
+    subst this
+    exact hnd.1 hy
+
+/-- **one node per roster member, on the generated tree itself**: the servers on the nodes of the
+complete tree are pairwise distinct, there are `n` of them, and every roster position occurs -/
+theorem c12_nary_members (N n rootIdx : Nat) (hr : rootIdx < n) :
+    ((naryClosed N rootIdx n).map (·.1)).Nodup ∧ ((naryClosed N rootIdx n).map (·.1)).length = n ∧
+    (∀ m, m ∈ (naryClosed N rootIdx n).map (·.1) ↔ m < n) := by
+  have hb := c12_nary_one_node_per_member n rootIdx hr
+  have hm : (naryClosed N rootIdx n).map (·.1) = (List.range n).map fun i => (i + rootIdx) % n := by
+    simp [naryClosed]
+  rw [hm]
+  refine ⟨?_, by simp, ?_⟩
+  · apply nodup_map_inj_on _ _ List.nodup_range
+    intro a ha b hb' h
+    exact hb.1 a b (List.mem_range.mp ha) (List.mem_range.mp hb') h
+  · intro m
+    constructor
+    · intro h
+      obtain ⟨i, _, rfl⟩ := List.mem_map.mp h
+      exact Nat.mod_lt _ (by omega)
+    · intro h
+      obtain ⟨i, hi, he⟩ := hb.2 m h
+      exact List.mem_map.mpr ⟨i, List.mem_range.mpr hi, he⟩
+
+
+
+theorem nodup_getD_inj (d : Nat) : ∀ (l : List Nat), l.Nodup → ∀ i j, i < l.length → j < l.length →
+    l.getD i d = l.getD j d → i = j := by
+  intro l
+  induction l with
+  | nil => intro _ i j hi; simp at hi
+  | cons x xs ih =>
+    intro hnd i j hi hj h
+    rw [List.nodup_cons] at hnd
+    have hmem : ∀ k, k < xs.length → xs.getD k d ∈ xs := by
+      intro k hk
+      rw [List.getD_eq_getElem?_getD, List.getElem?_eq_getElem hk]
+      exact List.getElem_mem hk
+    cases i with
+    | zero =>
+      cases j with
+      | zero => rfl
+      | succ j =>
+        exfalso
+        simp only [List.getD_cons_zero, List.getD_cons_succ] at h
+        exact hnd.1 (h ▸ hmem j (by simpa using hj))
+    | succ i =>
+      cases j with
+      | zero =>
+        exfalso
+        simp only [List.getD_cons_zero, List.getD_cons_succ] at h
+        exact hnd.1 (h ▸ hmem i (by simpa using hi))
+      | succ j =>
+        simp only [List.getD_cons_succ] at h
+        have := ih hnd.2 i j (by simpa using hi) (by simpa using hj) h
+        omega
+
+theorem search_none {keys : List Nat} {k : Nat} (h : k ∉ keys) : search keys k = none := by
+  unfold search
+  rw [List.findIdx?_eq_none_iff]
+  intro x hx
+  simp only [beq_eq_false_iff_ne]
+  intro e; subst e; exact h hx
+
+theorem search_some {keys : List Nat} {k : Nat} (h : k ∈ keys) :
+    ∃ r, search keys k = some r ∧ r < keys.length ∧ keys.getD r 0 = k ∧ ∀ j, j < r → keys.getD j 0 ≠ k := by
+  unfold search
+  cases hs : keys.findIdx? (· == k) with
+  | none =>
+    rw [List.findIdx?_eq_none_iff] at hs
+    have := hs k h
+    simp at this
+  | some r =>
+    rw [List.findIdx?_eq_some_iff_getElem] at hs
+    obtain ⟨hr, hk, hbefore⟩ := hs
+    refine ⟨r, rfl, hr, ?_, ?_⟩
+    · rw [List.getD_eq_getElem?_getD, List.getElem?_eq_getElem hr]
+      simpa using hk
+    · intro j hj
+      have := hbefore j hj
+      rw [List.getD_eq_getElem?_getD, List.getElem?_eq_getElem (by omega)]
+      simpa using this
+
+/-- **the requested root, or no tree**: a root that is not a member of the roster yields no tree; a
+root that is one yields the complete tree rooted at its (first) position in the roster; no root
+given means the first server.  For every branching factor `N ≥ 1` and every roster. -/
+theorem c12_root_lookup (N : Nat) (keys : List Nat) (k : Nat) (hN : 1 ≤ N) :
+    (k ∉ keys → genNaryKeys N keys (some k) = .noTree) ∧
+    (k ∈ keys → ∃ r, r < keys.length ∧ keys.getD r 0 = k ∧ (∀ j, j < r → keys.getD j 0 ≠ k) ∧
+        genNaryKeys N keys (some k) = .tree (naryClosed N r keys.length)) ∧
+    (keys ≠ [] → genNaryKeys N keys none = .tree (naryClosed N 0 keys.length)) := by
+  refine ⟨?_, ?_, ?_⟩
+  · intro h
+    simp [genNaryKeys, search_none h, genNary]
+  · intro h
+    obtain ⟨r, hs, hr, hk, hb⟩ := search_some h
+    refine ⟨r, hr, hk, hb, ?_⟩
+    simp only [genNaryKeys, hs]
+    exact c12_nary_is_complete N keys.length r hN (by omega) hr
+  · intro h
+    have : 1 ≤ keys.length := by
+      cases keys with
+      | nil => exact absurd rfl h
+      | cons _ _ => simp
+    simp only [genNaryKeys, h, if_false]
+    exact c12_nary_is_complete N keys.length 0 hN this (by omega)
+
+/-- **pairwise distinct node identifiers**: over a roster of pairwise distinct servers the nodes of
+the generated tree carry pairwise distinct ids, and the ids are exactly the servers' (every server
+hosts one node) -/
+theorem c12_nary_distinct_ids (N : Nat) (keys : List Nat) (r : Nat) (hnd : keys.Nodup) (hr : r < keys.length) :
+    (nodeIds keys (naryClosed N r keys.length)).Nodup ∧
+    (nodeIds keys (naryClosed N r keys.length)).length = keys.length ∧
+    (∀ k, k ∈ nodeIds keys (naryClosed N r keys.length) ↔ k ∈ keys) := by
+  obtain ⟨m1, m2, m3⟩ := c12_nary_members N keys.length r hr
+  have hid : nodeIds keys (naryClosed N r keys.length) =
+      ((naryClosed N r keys.length).map (·.1)).map fun i => keys.getD i 0 := by
+    simp [nodeIds, List.map_map, Function.comp_def]
+  rw [hid]
+  refine ⟨?_, by simpa using m2, ?_⟩
+  · apply nodup_map_inj_on _ _ m1
+    intro a ha b hb h
+    exact nodup_getD_inj 0 keys hnd a b ((m3 a).mp ha) ((m3 b).mp hb) h
+  · intro k
+    constructor
+    · intro h
+      obtain ⟨i, hi, rfl⟩ := List.mem_map.mp h
+      have hlt := (m3 i).mp hi
+      rw [List.getD_eq_getElem?_getD, List.getElem?_eq_getElem hlt]
+      exact List.getElem_mem hlt
+    · intro h
+      obtain ⟨i, hi, he⟩ := List.getElem_of_mem h
+      refine List.mem_map.mpr ⟨i, (m3 i).mpr hi, ?_⟩
+      rw [List.getD_eq_getElem?_getD, List.getElem?_eq_getElem hi]
+      simpa using he
+
+/-- outside the domain (a roster that lists a server twice): two nodes with the same id -/
+example : genNaryKeys 2 [7, 8, 7] (some 7) = .tree [(0, 0), (1, 0), (2, 0)] ∧
+    ¬ (nodeIds [7, 8, 7] [(0, 0), (1, 0), (2, 0)]).Nodup := by decide
+
+
+
+/-- position of the first node of depth `k` in the complete `N`-ary tree: 0, 1, N+1, N²+N+1, … -/
+def levelStart (N : Nat) : Nat → Nat
+  | 0 => 0
+  | k + 1 => N * levelStart N k + 1
+
+/-- depth of the node at position `i` of the generated tree (walk up the parent links `(i−1)/N`) -/
+def depthOf (N : Nat) : (fuel i : Nat) → Nat
+  | 0, _ => 0
+  | fuel + 1, i => if i = 0 then 0 else depthOf N fuel ((i - 1) / N) + 1
+
+theorem levelStart_succ (N k : Nat) : levelStart N (k + 1) = levelStart N k + N ^ k := by
+  induction k with
+  | zero => simp [levelStart]
+  | succ k ih =>
+    have h1 : levelStart N (k + 2) = N * levelStart N (k + 1) + 1 := rfl
+    have h2 : levelStart N (k + 1) = N * levelStart N k + 1 := rfl
+    rw [h1, ih, Nat.mul_add, Nat.pow_succ, Nat.mul_comm (N ^ k) N]
+    omega
+
+/-- the parent of a node of level `k+1` lies in level `k`, and only those do -/
+theorem c12_nary_level_parent (N : Nat) (hN : 1 ≤ N) (i k : Nat) (hi : 1 ≤ i) :
+    (levelStart N (k + 1) ≤ i ∧ i < levelStart N (k + 2)) ↔
+      (levelStart N k ≤ (i - 1) / N ∧ (i - 1) / N < levelStart N (k + 1)) := by
+  have h1 : levelStart N (k + 2) = N * levelStart N (k + 1) + 1 := rfl
+  have h2 : levelStart N (k + 1) = N * levelStart N k + 1 := rfl
+  rw [Nat.le_div_iff_mul_le (by omega), Nat.div_lt_iff_lt_mul (by omega), h1]
+  generalize levelStart N (k + 1) = b at *
+  generalize levelStart N k = a at *
+  rw [Nat.mul_comm a N, Nat.mul_comm b N]
+  omega
+
+/-- **levels are filled breadth-first**: the nodes of depth `k` of the generated tree are exactly
+the positions `levelStart k … levelStart (k+1) − 1` (as far as they exist) — a level is begun only
+when all levels above it are full — … -/
+theorem c12_nary_depth_block (N : Nat) (hN : 1 ≤ N) : ∀ (fuel i : Nat), i ≤ fuel →
+    levelStart N (depthOf N fuel i) ≤ i ∧ i < levelStart N (depthOf N fuel i + 1) := by
+  intro fuel
+  induction fuel with
+  | zero => intro i hi; simp [depthOf, levelStart]; omega
+  | succ f ih =>
+    intro i hi
+    by_cases h0 : i = 0
+    · subst h0; simp [depthOf, levelStart]
+    · simp only [depthOf, h0, if_false]
+      have hp : (i - 1) / N ≤ f := Nat.le_trans (Nat.div_le_self _ _) (by omega)
+      exact (c12_nary_level_parent N hN i _ (by omega)).mpr (ih _ hp)
+
+/-- … and level `k` therefore holds `min (N^k) (what is left after the levels above)` nodes of a
+tree with `n` nodes -/
+theorem c12_nary_level_sizes (N n k : Nat) :
+    min (levelStart N (k + 1)) n - min (levelStart N k) n = min (N ^ k) (n - levelStart N k) := by
+  rw [levelStart_succ]
+  generalize N ^ k = p
+  generalize levelStart N k = s
+  omega
+
+/-! ### the big generator: every clause at once; simulations -/
+
+/-- **consistent roster positions**: every node of the big tree sits on a roster position that exists -/
+theorem c12_big_members_in_range (c : BigCfg) (hN : 1 ≤ c.N) (hn : 1 ≤ c.hosts.length) (hnodes : 1 ≤ c.nodes)
+    (lv : List Level) (h : genBig c = .tree lv) : ∀ m ∈ membersOf lv, m < c.hosts.length := by
+  have hil : 0 < c.ilLen := hn
+  have h0 := init_ok c hil
+  obtain ⟨out, st', ho, hso, _⟩ := bigLoop_ok c hN hil c.nodes [[(0, 0)]] [(0, 0)] _ h0 (by simpa using hnodes) (Nat.le_refl 1) (Nat.sub_le _ _)
+  have hlv : lv = out := by
+    unfold genBig at h
+    rw [if_neg (by omega), ho] at h
+    exact (Outcome.tree.inj h).symm
+  subst hlv
+  exact hso.2.2.1
+
+/-- **every clause at once, for every roster, branching factor, node count and host layout**: on a
+non-empty roster, with `N ≥ 1` and `nodes ≥ 1`, `GenerateBigNaryTree(N, nodes)` returns a tree — the
+first server as root, exactly `nodes` nodes, level `k` holding `min (N^k) remaining` of them, every
+parent link pointing into the previous level, no node with more than `N` children, every node on an
+existing roster position — and when `nodes` equals the roster size every server hosts exactly one node -/
+theorem c12_big_wellformed (c : BigCfg) (hN : 1 ≤ c.N) (hn : 1 ≤ c.hosts.length) (hnodes : 1 ≤ c.nodes) :
+    ∃ more, genBig c = .tree ([(0, 0)] :: more) ∧
+      (([(0, 0)] :: more).map List.length).sum = c.nodes ∧
+      ([(0, 0)] :: more).map List.length = 1 :: levelSizesPow c.N c.nodes 1 (c.nodes - 1) ∧
+      LevelsOK c.N [(0, 0)] more ∧
+      (∀ m ∈ membersOf ([(0, 0)] :: more), m < c.hosts.length) ∧
+      (c.nodes = c.hosts.length →
+        (membersOf ([(0, 0)] :: more)).Nodup ∧ ∀ m, m < c.hosts.length → m ∈ membersOf ([(0, 0)] :: more)) := by
+  obtain ⟨lv, h⟩ := c12_big_terminates c hN hn hnodes
+  obtain ⟨more, rfl, _, h3, _⟩ := c12_big_shape c hN hnodes lv h
+  refine ⟨more, h, c12_big_size c hN hnodes _ h, c12_big_levels c hN hnodes _ h, h3,
+    c12_big_members_in_range c hN hn hnodes _ h, ?_⟩
+  intro hall
+  obtain ⟨u1, _, u3⟩ := c12_big_use_all c hN hall hnodes _ h
+  exact ⟨u1, u3⟩
+
+/-! ### simulations: `CreateRoster` + `CreateTree` -/
+
+theorem simHosts_length (hosts nbrAddr : Nat) : (simHosts hosts nbrAddr).length = hosts := by
+  simp [simHosts]
+
+/-- **the tree of a simulation** (`SimulationBFTree.CreateRoster` then `CreateTree`, for every
+branching factor `BF ≥ 1`, number of hosts `Hosts ≥ 1` and number of host names): a well-formed big
+tree of exactly `Hosts` nodes in which every server just created hosts exactly one node — so its
+node ids are pairwise distinct — whatever servers share a host name -/
+theorem c12_sim_tree (bf hosts nbrAddr : Nat) (hbf : 1 ≤ bf) (hh : 1 ≤ hosts) :
+    ∃ more, genSim bf hosts nbrAddr = .tree ([(0, 0)] :: more) ∧
+      (([(0, 0)] :: more).map List.length).sum = hosts ∧
+      ([(0, 0)] :: more).map List.length = 1 :: levelSizesPow bf hosts 1 (hosts - 1) ∧
+      LevelsOK bf [(0, 0)] more ∧
+      (membersOf ([(0, 0)] :: more)).Nodup ∧
+      (∀ m, m ∈ membersOf ([(0, 0)] :: more) ↔ m < hosts) := by
+  have hl := simHosts_length hosts nbrAddr
+  obtain ⟨more, w1, w2, w3, w4, w5, w6⟩ :=
+    c12_big_wellformed { N := bf, nodes := hosts, hosts := simHosts hosts nbrAddr } hbf (by simpa [hl] using hh) hh
+  simp only [hl] at w5 w6
+  obtain ⟨u1, u2⟩ := w6 trivial
+  exact ⟨more, w1, w2, w3, w4, u1, fun m => ⟨w5 m, u2 m⟩⟩
+
+/-- the host of server `c` is `c mod nbrAddr`, its port offset `2·(c / nbrAddr)`: two servers of a
+simulation never share an address -/
+theorem c12_sim_addresses_distinct (nbrAddr a b : Nat)
+    (hh : a % nbrAddr = b % nbrAddr) (hp : simPort nbrAddr a = simPort nbrAddr b) : a = b := by
+  unfold simPort at hp
+  have h1 := Nat.div_add_mod a nbrAddr
+  have h2 := Nat.div_add_mod b nbrAddr
+  have : a / nbrAddr = b / nbrAddr := by omega
+  rw [this, hh] at h1
+  omega
+
+/-! ### when the node-id clause does hold for the big generator: uniform host layouts -/
+
+/-- the host-avoidance loop never skips a server: asked for the next child of a parent that sits on
+an earlier roster position, it hands out the server `roIndex` points at -/
+def PickSeq (c : BigCfg) : Prop :=
+  ∀ (st : BigSt) (pm r : Nat), pm < st.roIndex → st.roIndex < c.ilLen →
+    pick c st (c.hosts.getD pm 0) = some r → r = st.roIndex
+
+/-- all servers on one host: the loop walks once round the roster and comes back to where it started -/
+theorem pickSeq_one_host (c : BigCfg) (hU : c.useAll = false) (hsame : ∀ i j, i < c.ilLen → j < c.ilLen →
+    c.hosts.getD i 0 = c.hosts.getD j 0) : PickSeq c := by
+  intro st pm r hpm hro hp
+  have hn : 0 < c.ilLen := by omega
+  have key : ∀ fuel ro r, ro < c.ilLen →
+      pickLoop c st.used (c.hosts.getD pm 0) st.roIndex fuel ro (c.hosts.getD pm 0) true = some r → r = st.roIndex := by
+    intro fuel
+    induction fuel with
+    | zero => intro ro r _ h; simp [pickLoop] at h
+    | succ f ih =>
+      intro ro r hro' h
+      by_cases h1 : c.ilLen > 1
+      · have hro2 : (ro + 1) % c.ilLen < c.ilLen := Nat.mod_lt _ hn
+        simp only [pickLoop, hU, Bool.false_and, Bool.or_false, BEq.rfl, Bool.true_and, Bool.and_true,
+          decide_eq_true_eq, h1, if_true, Bool.false_eq_true, if_false] at h
+        split at h
+        · next he => simp only [Option.some.injEq] at h; rw [← h]; simpa using he
+        · rw [hsame ((ro + 1) % c.ilLen) pm hro2 (by omega)] at h
+          exact ih _ _ hro2 h
+      · omega
+  unfold pick at hp
+  rw [hsame st.roIndex pm hro (by omega)] at hp
+  exact key _ _ _ hro hp
+
+/-- every server on a host of its own: the server `roIndex` points at is never on the parent's host -/
+theorem pickSeq_distinct_hosts (c : BigCfg) (hU : c.useAll = false) (hd : c.hosts.Nodup) : PickSeq c := by
+  intro st pm r hpm hro hp
+  have hne : c.hosts.getD st.roIndex 0 ≠ c.hosts.getD pm 0 := by
+    intro e
+    have := nodup_getD_inj 0 c.hosts hd st.roIndex pm hro (by unfold BigCfg.ilLen at hro; omega) e
+    omega
+  unfold pick at hp
+  have hf : 2 * c.ilLen + 3 = (2 * c.ilLen + 2) + 1 := rfl
+  rw [hf] at hp
+  have hb : (c.hosts.getD st.roIndex 0 == c.hosts.getD pm 0) = false := by simpa using hne
+  simp only [pickLoop, hU, hb, Bool.false_and, Bool.and_false, Bool.or_false, Bool.false_eq_true, if_false,
+    Option.some.injEq] at hp
+  exact hp.symm
+
+private theorem addChildren_seq (c : BigCfg) (hP : PickSeq c) (pIdx m : Nat) :
+    ∀ k st acc st' acc', addChildren c pIdx m k st acc = some (st', acc') →
+      st.roIndex = st.total → m < st.total → st.total + k < c.ilLen →
+      st'.roIndex = st'.total ∧ st'.total = st.total + k ∧
+        acc'.map (·.1) = acc.map (·.1) ++ List.range' st.total k := by
+  intro k
+  induction k with
+  | zero =>
+    intro st acc st' acc' h hro _ _
+    simp only [addChildren, Option.some.injEq, Prod.mk.injEq] at h
+    obtain ⟨rfl, rfl⟩ := h
+    simp [hro]
+  | succ k ih =>
+    intro st acc st' acc' h hro hm hlt
+    simp only [addChildren] at h
+    split at h
+    · simp at h
+    · next r hr =>
+      have hr' : r = st.roIndex := hP st m r (by omega) (by omega) hr
+      subst hr'
+      have hmod : (st.roIndex + 1) % c.ilLen = st.total + 1 := by rw [hro]; exact Nat.mod_eq_of_lt (by omega)
+      obtain ⟨a1, a2, a3⟩ := ih _ _ _ _ h (by simp [hmod]) (by simp; omega) (by simp; omega)
+      refine ⟨a1, by rw [a2]; simp; omega, ?_⟩
+      rw [a3]
+      simp [List.range'_succ, hro]
+
+private theorem addLevel_seq (c : BigCfg) (hP : PickSeq c) (hlt : c.nodes < c.ilLen) (L : Nat) :
+    ∀ parents i st acc st' acc', addLevel c L parents i st acc = some (st', acc') →
+      st.roIndex = st.total → (∀ x ∈ parents, x.1 < st.total) → i + parents.length = L → st.total ≤ c.nodes →
+      st'.roIndex = st'.total ∧ st.total ≤ st'.total ∧ st'.total ≤ c.nodes ∧
+        acc'.map (·.1) = acc.map (·.1) ++ List.range' st.total (st'.total - st.total) := by
+  intro parents
+  induction parents with
+  | nil =>
+    intro i st acc st' acc' h hro _ _ htot
+    simp only [addLevel, Option.some.injEq, Prod.mk.injEq] at h
+    obtain ⟨rfl, rfl⟩ := h
+    simp [hro, htot]
+  | cons p rest ih =>
+    intro i st acc st' acc' h hro hpar hiL htot
+    obtain ⟨m, x⟩ := p
+    simp only [addLevel] at h
+    split at h
+    · simp at h
+    · next st1 acc1 h1 =>
+      have hcc := childCount_le c L i st.total (by simp at hiL; omega)
+      obtain ⟨a1, a2, a3⟩ := addChildren_seq c hP i m _ _ _ _ _ h1 hro (hpar (m, x) (by simp)) (by omega)
+      obtain ⟨b1, b2, b3, b4⟩ := ih _ _ _ _ _ h a1
+        (fun y hy => by have := hpar y (by simp [hy]); omega) (by simp at hiL; omega) (by omega)
+      refine ⟨b1, by omega, b3, ?_⟩
+      rw [b4, a3, List.append_assoc, a2]
+      congr 1
+      rw [show st'.total - st.total = childCount c L i st.total + (st'.total - (st.total + childCount c L i st.total)) by omega,
+        List.range'_append_1 (s := st.total)]
+
+private theorem bigLoop_seq (c : BigCfg) (hP : PickSeq c) (hlt : c.nodes < c.ilLen) :
+    ∀ fuel levels cur st out, bigLoop c fuel levels cur st = .tree out →
+      st.roIndex = st.total → st.total ≤ c.nodes → membersOf levels = List.range st.total →
+      (∀ x ∈ cur, x.1 < st.total) → membersOf out = List.range c.nodes := by
+  intro fuel
+  induction fuel with
+  | zero =>
+    intro levels cur st out h _ htot hm _
+    simp only [bigLoop] at h
+    split at h
+    · simp at h
+    · simp only [Outcome.tree.injEq] at h
+      rw [← h, hm, show st.total = c.nodes by omega]
+  | succ fuel ih =>
+    intro levels cur st out h hro htot hm hcur
+    simp only [bigLoop] at h
+    split at h
+    · split at h
+      · simp at h
+      · next st' nl hl =>
+        obtain ⟨a1, a2, a3, a4⟩ := addLevel_seq c hP hlt cur.length cur 0 st [] st' nl hl hro hcur (by omega) htot
+        simp only [List.map_nil, List.nil_append] at a4
+        refine ih _ _ _ _ h a1 a3 ?_ ?_
+        · have : membersOf (levels ++ [nl]) = membersOf levels ++ nl.map (·.1) := by
+            simp [membersOf, List.flatten_append]
+          have e := @List.range'_append_1 0 st.total (st'.total - st.total)
+          rw [Nat.zero_add] at e
+          rw [this, hm, a4, List.range_eq_range', List.range_eq_range', e]
+          congr 1; omega
+        · intro x hx
+          have : x.1 ∈ nl.map (·.1) := List.mem_map_of_mem hx
+          rw [a4] at this
+          have := List.mem_range'_1.mp this
+          omega
+    · simp only [Outcome.tree.injEq] at h
+      rw [← h, hm, show st.total = c.nodes by omega]
+
+/-- **the node-id clause holds for the two uniform host layouts** (`_partial`, second part): when
+the tree is to have at most as many nodes as there are servers and the servers are all on one host
+or all on hosts of their own, no server hosts two nodes — below the roster size the servers are
+simply taken in roster order.  Only a mixed layout (some servers sharing a host, others not) can
+make the generator repeat a server while others are left out: that is the known finding. -/
+theorem c12_big_distinct_uniform_partial (c : BigCfg) (hN : 1 ≤ c.N) (hnodes : 1 ≤ c.nodes)
+    (hle : c.nodes ≤ c.hosts.length)
+    (hu : (∀ i j, i < c.hosts.length → j < c.hosts.length → c.hosts.getD i 0 = c.hosts.getD j 0) ∨ c.hosts.Nodup)
+    (lv : List Level) (h : genBig c = .tree lv) :
+    (membersOf lv).Nodup ∧ (c.nodes < c.hosts.length → membersOf lv = List.range c.nodes) := by
+  by_cases hall : c.nodes = c.hosts.length
+  · exact ⟨(c12_big_use_all c hN hall hnodes lv h).1, fun hlt => by omega⟩
+  · have hlt : c.nodes < c.ilLen := by unfold BigCfg.ilLen; omega
+    have hU : c.useAll = false := by
+      simp only [BigCfg.useAll, BigCfg.ilLen, beq_eq_false_iff_ne]; omega
+    have hP : PickSeq c := by
+      rcases hu with hu | hu
+      · exact pickSeq_one_host c hU hu
+      · exact pickSeq_distinct_hosts c hU hu
+    have hm : membersOf lv = List.range c.nodes := by
+      unfold genBig at h
+      rw [if_neg (by omega)] at h
+      have h1 : 1 % c.ilLen = 1 := Nat.mod_eq_of_lt (by omega)
+      exact bigLoop_seq c hP hlt _ _ _ _ _ h (by simp [h1]) (by simpa using hnodes) (by simp [membersOf, List.range_succ])
+        (by simp)
+    exact ⟨by rw [hm]; exact List.nodup_range, fun _ => hm⟩
+
+/-- non-vacuity: both layouts occur, with fewer nodes than servers -/
+example : genBig { N := 2, nodes := 4, hosts := [0, 0, 0, 0, 0, 0] } = .tree [[(0, 0)], [(1, 0), (2, 0)], [(3, 1)]] ∧
+    genBig { N := 2, nodes := 4, hosts := [0, 1, 2, 3, 4, 5] } = .tree [[(0, 0)], [(1, 0), (2, 0)], [(3, 1)]] := by decide
+
 /-! ### the code regions the model stands for
 Regenerated from /repo's source on every run (`harness/cmd/astfacts` → `OnetVerif/Shapes.lean`): the
 calls that matter for synchronisation and data flow, the lock regions and (for decision logic) the
@@ -1074,6 +1538,15 @@ theorem c12_shape_LocalTest_GenBigTree :
 theorem c12_shape_LocalTest_GenRosterFromHost :
     Shapes.local_LocalTest_GenRosterFromHost =
    ["l.panicClosed", "NewRoster"] := rfl
+
+theorem c12_shape_SimulationBFTree_CreateTree :
+    Shapes.simulation_SimulationBFTree_CreateTree =
+   ["time.Now", "if:(sc.Roster==nil)", "return:xerrors.New(\"\")", "Roster.GenerateBigNaryTree",
+     "return:nil"] := rfl
+
+theorem c12_shape_Roster_Search :
+    Shapes.tree_Roster_Search =
+   ["if:e.ID.Equal(eID)", "return:i,e", "return:-1,nil"] := rfl
 
 
 end C12
